@@ -331,10 +331,16 @@ def to_val(x):
         return x.ident
     if hasattr(x, "as_val"):
         return x.as_val()
+    if isinstance(x, ClassVal) and x.pycls is not None:
+        return to_val(x.pycls)       # a class defined in analysed source: its runtime twin
     if isinstance(x, (type,)) or x is Ellipsis:
         return VObj(z3.IntVal(1_000_000 + _obj_id(x)))
     if isinstance(x, z3.ExprRef) and x.sort() == Val:
         return x
+    if not isinstance(x, (SSeq, SDict, Obj, Closure, ClassVal, Stub, tuple, list, dict, set, float, bytes)) \
+            and not getattr(x, "host_symbolic", False):
+        # any other concrete object (typing special forms, sentinels, modules...): an atom identified by identity
+        return VObj(z3.IntVal(1_000_000 + _obj_id(x)))
     raise Unsupported(f"cannot lower {x!r} to Val")
 
 
